@@ -561,9 +561,11 @@ class GroupBy:
             return
 
         if self._group_key_pointers is not None:
-            chunks = [
-                p[k] for p, k in zip(self._group_key_pointers, self._group_ikey.chunks)
-            ]
+            chunks = []
+            for p, k in zip(self._group_key_pointers, self._group_ikey.chunks):
+                k = k.to_numpy()
+                # the null code -1 must stay null rather than index the last pointer
+                chunks.append(np.where(k < 0, -1, p[k]))
             self._group_key_pointers = None
         elif keep_chunked:
             # no pointers to unify, but we want to keep chunked so do nothing
